@@ -58,23 +58,53 @@ static void h_page(bool is_mmap) {
 void h_c04_page_mmap(void) { h_page(true); }
 void h_c04_page_fread(void) { h_page(false); }
 
-/* ---- carquet_read_dictionary_page under its contract (contracts/page_reader.ovl) -------------- */
+/* ---- carquet_read_dictionary_page: harness-is-contract (the assertions below are the ensures clauses of
+ * its contract in contracts/page_reader.ovl); the byte-array loop carries its loop contract.
+ * --enforce-contract is not used: its assigns instrumentation exhausts 8 GB on this function. */
 void h_c04_read_dictionary_page(void) {
   carquet_column_reader_t *r = NULL;
   if (nondet_bool()) {
     r = pg_block(sizeof(*r));
     carquet_column_reader_t r0; *r = r0;
-    r->has_dictionary = false; r->dictionary_data = NULL; r->dictionary_offsets = NULL;
+    r->has_dictionary = false; r->dictionary_data = NULL; r->dictionary_offsets = NULL;   /* call sites: !has_dictionary */
+#if defined(PG_FLBA)
+    __CPROVER_assume(r->type == CARQUET_PHYSICAL_FIXED_LEN_BYTE_ARRAY && r->type_length == PG_FLBA);
+#elif defined(PG_NOT_FLBA)
+    __CPROVER_assume(r->type != CARQUET_PHYSICAL_FIXED_LEN_BYTE_ARRAY);
+#endif
   }
   size_t page_size = nondet_size_t();
-  __CPROVER_assume(page_size <= ((size_t)1 << 31));
+  __CPROVER_assume(page_size <= ((size_t)1 << 31));       /* int32 page-header field at both call sites */
   uint8_t *page = nondet_bool() ? pg_block(page_size) : NULL;
   parquet_dictionary_page_header_t *h = NULL;
   if (nondet_bool()) { h = pg_block(sizeof(*h)); parquet_dictionary_page_header_t h0; *h = h0; }
   carquet_error_t *err = NULL;
   if (nondet_bool()) { err = pg_block(sizeof(*err)); err->code = CARQUET_OK; }
   carquet_status_t st = carquet_read_dictionary_page(r, page, page_size, h, err);
+  __CPROVER_assert(st != CARQUET_ERROR_CRC_MISMATCH, "never a CRC error");
+  __CPROVER_assert(!(r == NULL || page == NULL || h == NULL) || st != CARQUET_OK, "NULL argument refused");
+  if (st != CARQUET_OK) {
+    __CPROVER_assert(err == NULL || err->code != CARQUET_OK, "C04: failure leaves a non-OK code");
+    __CPROVER_assert(r == NULL || (!r->has_dictionary && r->dictionary_data == NULL && r->dictionary_offsets == NULL), "failure leaves no dictionary storage behind");
+    CQV_CANARY("read_dictionary_page can fail");
+  } else {
+    CQV_CANARY("read_dictionary_page can succeed");
+    __CPROVER_assert(r->has_dictionary && r->dictionary_count == h->num_values && r->dictionary_count >= 0 && r->dictionary_data != NULL, "C04: entry count recorded, non-negative, storage present");
+    __CPROVER_assert(__CPROVER_r_ok(r->dictionary_data, r->dictionary_size), "C04: dictionary_size bytes of dictionary storage are readable");
+    if (r->type != CARQUET_PHYSICAL_BYTE_ARRAY) {
+      __CPROVER_assert(r->dictionary_size == PG_DICT_VS(r->type, r->type_length) * (size_t)r->dictionary_count, "C04: fixed-width dictionary holds count entries of the width the decoder reads");
+      CQV_CANARY("fixed-width dictionary accepted");
+    } else {
+      __CPROVER_assert(r->dictionary_size == page_size && r->dictionary_offsets != NULL, "C04: byte-array dictionary keeps the whole page and an offset table");
+      __CPROVER_assert(__CPROVER_r_ok(r->dictionary_offsets, (size_t)r->dictionary_count << 2), "C04: offset table has count entries");
+      if (cqv_k < (size_t)r->dictionary_count) {
+        size_t o = r->dictionary_offsets[cqv_k];
+        __CPROVER_assert(o + 4 <= page_size && o + 4 + (size_t)PG_LE32(page + o) <= page_size, "C04: every offset-table entry and the value it announces lie inside the page");
+        if (r->dictionary_count > 1) CQV_CANARY("byte-array dictionary with several entries accepted");
+      }
+    }
+    free(r->dictionary_data); free(r->dictionary_offsets);
+  }
+  free(r); free(page); free(h); free(err);
   CQV_CANARY("read_dictionary_page returns");
-  if (st == CARQUET_OK) CQV_CANARY("read_dictionary_page can succeed");
-  if (st == CARQUET_OK && r->type == CARQUET_PHYSICAL_BYTE_ARRAY && h->num_values > 1) CQV_CANARY("byte-array dictionary with several entries accepted");
 }
